@@ -137,8 +137,45 @@ def d21_dirs(case):
     return case.meta['d21']
 
 
+def d29_dirs(case):
+    """directories of Manifest-named files that parse as Manifests and are listed by an entry of another type only (no MANIFEST entry)"""
+    if 'd29' not in case.meta:
+        tags = {}
+        for m, ents in pre_manifests_all(case).items():
+            d = os.path.dirname(m)
+            for e in ents:
+                if e[0] in OX.FILE_TAGS:
+                    tags.setdefault(OX.norm(d, e[1]), set()).add(e[0])
+        dirs = set()
+        for p, tg in tags.items():
+            if 'MANIFEST' not in tg and os.path.basename(p).split('.')[0] == 'Manifest':
+                ino = case.tree.lookup(p)
+                if ino is not None and case.tree.nodes[ino]['k'] == 'f' and OX.parse(p, case.tree.nodes[ino]['data']) is not None:
+                    dirs.add(os.path.dirname(p))
+        case.meta['d29'] = sorted(dirs)
+    return case.meta['d29']
+
+
+def pre_manifests_all(case):
+    """like pre_manifests, empty Manifests included"""
+    out = {}
+    for p, ino in case.tree.files():
+        if os.path.basename(p).startswith('Manifest'):
+            ents = OX.parse(p, case.tree.nodes[ino]['data'])
+            if ents is not None:
+                out[p] = ents
+    return out
+
+
+def match_d29(case, kind, detail):
+    return _match_near(d29_dirs(case), kind, detail)
+
+
 def match_d21(case, kind, detail):
-    dirs = d21_dirs(case)
+    return _match_near(d21_dirs(case), kind, detail)
+
+
+def _match_near(dirs, kind, detail):
     if not dirs:
         return False
 
@@ -312,5 +349,5 @@ def match_d28(case, kind, detail):
     return False
 
 
-MATCHERS = {'D28': match_d28, 'D25': match_d25, 'D11': match_d11, 'D20': match_d20, 'D21': lambda c, k, d: match_d21(c, k, d) or match_d21_internal(c, k, d),
+MATCHERS = {'D29': match_d29, 'D28': match_d28, 'D25': match_d25, 'D11': match_d11, 'D20': match_d20, 'D21': lambda c, k, d: match_d21(c, k, d) or match_d21_internal(c, k, d),
             'D13': match_d13, 'D12': match_d12, 'D8': match_d8, 'D23': match_d23}
